@@ -218,6 +218,36 @@ func attrSweepDocs() []leafDoc {
 				avs = append(avs, av{a[0], ev})
 			}
 		}
+		// every attribute with a BLANK value (written, but only white space): alone, and next to all the other attributes at their
+		// typical values (a blank value next to the attribute that makes the component look at it: background-size next to
+		// background-url, …)
+		{
+			seen := map[string]bool{}
+			var names, typical []string
+			for _, x := range avs {
+				if !seen[x.a] {
+					seen[x.a] = true
+					names = append(names, x.a)
+					typical = append(typical, x.a+`="`+xmlAttrEsc(x.v)+`"`)
+				}
+			}
+			for i, a := range names {
+				if a == "css-class" || a == "name" {
+					continue
+				}
+				for bi, blank := range []string{" ", "\t\n"} {
+					if src := legalContext(tag, a+`="`+xmlAttrEsc(blank)+`"`, ""); src != "" && bi == 0 {
+						out = append(out, leafDoc{desc: "attr-blank/" + tag + "/" + a, src: src})
+					}
+					var rest []string
+					rest = append(rest, typical[:i]...)
+					rest = append(rest, typical[i+1:]...)
+					if src := legalContext(tag, a+`="`+xmlAttrEsc(blank)+`" `+strings.Join(rest, " "), ""); src != "" {
+						out = append(out, leafDoc{desc: fmt.Sprintf("attr-blank-among-all/%s/%s/%d", tag, a, bi), src: src})
+					}
+				}
+			}
+		}
 		// all attributes at once (first value of each)
 		{
 			seen := map[string]bool{}
